@@ -29,7 +29,10 @@ def _cases(tier, rng, dist):
     for nr, nc, alpha in ((70001, 2, 40), (1025, 9, 2), (300, 33, 1)) if tier == "quick" else ((70001, 2, 40), (1025, 9, 2), (300, 33, 1), (140001, 1, 5000), (4099, 3, 3)):
         yield {"x": [[0]], "gen": [nr, nc, alpha, rng.randint(0, 10**6)], "layout": rng.choice([0, 1, 3])}
     # wide rows (more columns than any key limit of 32 / 64) whose copies are separated by rows that differ in ONE column only
-    for nc in ((33, 40, 70) if tier == "quick" else (33, 34, 40, 65, 70, 129)):
+    from .. import sizes
+    wide = [33, 40, 70] if tier == "quick" else [33, 34, 40, 65, 70, 129]
+    wide += [v for v in sizes.extra_sizes(["qa"], wide, cap=3000) if v not in wide][:4]          # just beyond every integer constant of the source
+    for nc in wide:
         for _ in range(4):
             base = [[rng.randint(0, 1) for _ in range(nc)] for _ in range(2)]
             pool = list(base)
